@@ -18,9 +18,11 @@ def classify_crash(cr):
     return ('C12', cr['kind'])
 
 
+WRAPS = ['make_lp', 'delete_lp', 'add_constraint', 'del_constraint', 'resize_lp', 'set_obj', 'set_obj_fn', 'set_minim', 'set_maxim', 'set_unbounded', 'solve']
+
 SPEC = {
     'id': 'C12',
-    'lean_modules': ['AITB.Props.C12Spec', 'AITB.Props.C12Interp', 'AITB.Props.C12InterpOpt', 'AITB.Props.C12CheckSound', 'AITB.Props.C12PruneStrong', 'AITB.Props.C12InterpValue', 'AITB.Props.C12UsefulPoints', 'AITB.Props.C12Strict', 'AITB.Props.C12LpCert', 'AITB.Props.C12SawGuard'],
+    'lean_modules': ['AITB.Props.C12Spec', 'AITB.Props.C12Interp', 'AITB.Props.C12InterpOpt', 'AITB.Props.C12CheckSound', 'AITB.Props.C12PruneStrong', 'AITB.Props.C12InterpValue', 'AITB.Props.C12UsefulPoints', 'AITB.Props.C12Strict', 'AITB.Props.C12LpCert', 'AITB.Props.C12SawGuard', 'AITB.Props.C12WitnessLP'],
     'theorems': [
         # headline statements (library tolerances / exact reading)
         'AITB.Prune.extractDominated_spec', 'AITB.Prune.extractDominated_exact_spec',
@@ -69,22 +71,36 @@ SPEC = {
         'AITB.Interp.sawtoothG_le_corner_bound', 'AITB.Interp.sawtoothG_empty_total',
         'AITB.Interp.sawtooth_value_variant_independent', 'AITB.Interp.lpInterp_value_tail_independent',
         'AITB.Interp.sawtooth_defined_of_nonempty', 'AITB.Interp.sawtooth_none_only_if_empty',
+        # round 3b: WitnessLP modelled (row scaling by a common power of two), invariance of the witness question, Pruner with the modelled WitnessLP
+        'AITB.WitnessLP.pow2_pos', 'AITB.WitnessLP.scaleOfExp_pow2', 'AITB.WitnessLP.witnessScale_pow2', 'AITB.WitnessLP.witnessScale_pos',
+        'AITB.WitnessLP.dot_scaleVec', 'AITB.WitnessLP.addRows_from', 'AITB.WitnessLP.posed_witnessOracle', 'AITB.WitnessLP.scaleOf_pos',
+        'AITB.WitnessLP.feasible_scale', 'AITB.WitnessLP.optimum_scale', 'AITB.WitnessLP.witness_scale', 'AITB.WitnessLP.exists_margin',
+        'AITB.WitnessLP.witnessOracle_some', 'AITB.WitnessLP.witnessOracle_none', 'AITB.WitnessLP.pow2_ilogb_le', 'AITB.WitnessLP.inv_scaleOfExp_le',
+        'AITB.WitnessLP.inv_witnessScale_le', 'AITB.WitnessLP.maxAbsV_le', 'AITB.WitnessLP.inv_scaleOf_le',
+        'AITB.Prune.prunerLoop_oracle_congr', 'AITB.Prune.pruner_oracle_congr', 'AITB.Prune.pruner_lp_spec',
     ],
     'harness': 'harness/c12.cpp',
+    'harness_flags': ['-Wl,--wrap=' + w for w in WRAPS],
     'level': 'proof',
     'timeout': {'quick': 420, 'thorough': 2400},
     'case_timeout': 60,
     'classify_crash': classify_crash,
-    'rule': '24 fixed witness/regression cases (18-21: exact corner ties in dimension 3-4, every input order; 22: within-tolerance near-tie; 23: frozen lp_solve cycling input), then 2500 (quick) / 12000 (thorough) seeded random cases: vector sets (dimension 1..6, up to 16 / 40 vectors; '
+    'rule': '27 fixed witness/regression cases (24: mixed magnitudes 2^17..2^28 with vectors only the witness LP finds, used Pruner objects; 25: WitnessLP at the boundaries of its row scaling; '
+            '26: frozen witness of C12-witnesslp-mixed-magnitudes; 18-21: exact corner ties in dimension 3-4, every input order; 22: within-tolerance near-tie; 23: frozen lp_solve cycling input), then 2500 (quick) / 12000 (thorough) seeded random cases: vector sets (dimension 1..6, up to 16 / 40 vectors; '
             'duplicates, shifts straddling both tolerances, corner-only and face-tied vectors, midpoints, magnitudes 2^22) through dominates, findBestAt*, '
             'extractDominated, extractDominatedIncremental (raw and pre-pruned old part) and Pruner; point surfaces (dimension 1..5, 0..6/10 points, zero '
             'coordinates, coordinates of size 2^-21 / 2^-19, query equal to a stored point, corner queries, unhelpful points, magnitudes 2^20) through '
-            'LPInterpolation and sawtoothInterpolation. non-trivial = at least two vectors / at least one stored point; distinct by protocol line',
+            'LPInterpolation and sawtoothInterpolation; then 700 (quick) / 4000 (thorough) mixed-magnitude cases (entries 2^17..2^28 next to order-one and 2^-20 entries inside one set, mid-face winners) '
+            'through Pruner (fresh and used objects), extractDominated+Pruner, Pruner+extractDominatedIncremental+Pruner, WitnessLP directly, LPInterpolation/sawtooth with one huge state. '
+            'Every LP handed to lp_solve is recorded at link time and compared with the model. non-trivial = at least two vectors / at least one stored point; distinct by protocol line',
     'modelled': ['include/AIToolbox/Utils/Polytope.hpp: dominates, findBestAtPoint, findBestAtSimplexCorner, extractBestAtPoint, extractBestAtSimplexCorners',
                  'include/AIToolbox/Utils/Prune.hpp: extractDominated, extractDominatedIncremental, Pruner::operator() (witness LP = oracle replayed from a recorded trace)',
                  'src/Utils/Polytope.cpp: LPInterpolation (LP = oracle read back from the returned weights), sawtoothInterpolation',
-                 'include/AIToolbox/Utils/Polytope.hpp: extractBestUsefulPoints (AITB.Model.UsefulPoints, array reproduced slot for slot)'],
+                 'include/AIToolbox/Utils/Polytope.hpp: extractBestUsefulPoints (AITB.Model.UsefulPoints, array reproduced slot for slot)',
+                 'src/Utils/Polytope.cpp: WitnessLP (witnessScale, reset, addOptimalRow, findWitness: AITB.Model.WitnessLP; the rows lp_solve receives are compared coefficient by coefficient), the LP of LPInterpolation (interpRows)',
+                 'src/Utils/LP/LpSolveWrapper.cpp: pushRow / popRow / resize / solve pass rows and answers through unchanged (bodies pinned by tools/extract_c12.py, observed by link-time interception)'],
     'assumptions': ['lp_solve (through AIToolbox::LP / WitnessLP) is an oracle: its answers are checked per call by exact certificates, never trusted',
                     'IEEE rounding is outside the theorems; inputs are dyadic so that the differential comparison is exact, comparisons within 1e-12 of a tolerance threshold are skipped'],
-    'trusted_base': ['tools/extract_c12.py (decides which reading of four statements of Polytope.cpp the model takes)'],
+    'trusted_base': ['tools/extract_c12.py (decides which reading of four statements of Polytope.cpp the model takes; pins the bodies of WitnessLP and of the LP wrapper)',
+                     'GNU ld --wrap interception of make_lp / delete_lp / add_constraint / del_constraint / resize_lp / set_obj / set_obj_fn / set_minim / set_maxim / set_unbounded / solve'],
 }
